@@ -244,7 +244,7 @@ func (s *Search) alphaBeta(b *board.Board, alpha, beta Score, d, ply Depth, nTyp
 	staticEval := Inv
 
 	if !inCheck {
-		staticEval = eval.Eval(b, &eval.Coefficients)
+		staticEval = evaluate(b)
 
 		oldScore := Inv
 		if old, ok := s.hstack.Top(1); ok && old.Score != Inv {
@@ -543,7 +543,7 @@ func (s *Search) quiescence(b *board.Board, alpha, beta Score, ply Depth, opts *
 		}
 	}
 
-	standPat := eval.Eval(b, &eval.Coefficients)
+	standPat := evaluate(b)
 
 	if !inCheck && standPat >= beta {
 		return standPat
@@ -609,6 +609,14 @@ func (s *Search) quiescence(b *board.Board, alpha, beta Score, ply Depth, opts *
 	transpT.Insert(b.Hash(), s.gen, 0, ply, 0, maxim, transp.UpperBound)
 
 	return maxim
+}
+
+// evaluate is the static evaluation of b kept strictly inside the mate score
+// bands. With enough promoted material the raw evaluation exceeds Inf-MaxPlies
+// (nine queens against a bare king evaluate to more than 10400), which the
+// search would mistake for a mate score or even for a value below -Inf.
+func evaluate(b *board.Board) Score {
+	return Clamp(eval.Eval(b, &eval.Coefficients), -Inf+MaxPlies+1, Inf-MaxPlies-1)
 }
 
 func (s *Search) rankMovesQ(b *board.Board, moves []move.Weighted) {
